@@ -1,0 +1,44 @@
+//go:build verif
+
+// Contracts for access-log sampling and asynchronous emission (property C39, reduced core).
+// Comment-only.
+
+package vgirpc
+
+// keep: with a rate of 1 everything is kept; an error record is always kept; a kept non-error
+// record carries the rate; a dropped record is left untouched.
+//
+// the sampler's rate and threshold are fixed when it is built (checked package-wide)
+//@ immutable accessLogSampler.rate
+//@ immutable accessLogSampler.threshold
+//
+//@ pure func idOK(record map[string]any, f string) bool = has(record, f) && typeof(record[f]) == string && as(record[f], "string") != ""
+//@ func (*accessLogSampler).keep
+//@   property C39
+//@   ensures [fullrate] real(s.rate) >= real(1) ==> result
+//@   ensures [errorskept] old(has(record, "status") && record["status"] == iface("error")) ==> result
+//@   ensures [ratestamped] result && real(s.rate) < real(1) && !old(has(record, "status") && record["status"] == iface("error")) ==> has(record, "sample_rate") && record["sample_rate"] == iface(s.rate)
+//@   ensures [local_dropped_ret3] !result && (forall k string :: has(record, k) == old(has(record, k)) && record[k] == old(record[k]))
+
+// key: the stream id when the record has a non-empty one, else the request id, else a fallback
+// that differs per record — so the records of one stream share one sampling decision.
+//
+//@ func (*accessLogSampler).key
+//@   property C39
+//@   modifies embedded(s, "fallback")
+//@   loop 0 invariant (rangeindex >= 0 ==> !idOK(record, "stream_id")) && (rangeindex >= 1 ==> !idOK(record, "request_id"))
+//@   ensures [stream] idOK(record, "stream_id") ==> result == as(record["stream_id"], "string")
+//@   ensures [request] !idOK(record, "stream_id") && idOK(record, "request_id") ==> result == as(record["request_id"], "string")
+
+// enqueue never blocks, and accounts for every record: either it was handed to the writer —
+// then it carries the number of records dropped since the last one that got through, and the
+// counter starts again — or it is counted as dropped and carries no count; after close nothing
+// is queued or counted.
+//
+//@ func (*asyncEmitter).enqueue
+//@   property C39
+//@   noblock
+//@   ensures [closed] old(a.closed) ==> a.dropped == old(a.dropped)
+//@   # (for every count short of the int64 limit)
+//@   ensures [accounted] !old(a.closed) && 0 <= old(a.dropped) && old(a.dropped) < 9223372036854775807 ==> (a.dropped == 0 && (old(a.dropped) > 0 ==> has(record, "dropped_records") && record["dropped_records"] == iface(old(a.dropped)))) ||
+//@       (a.dropped == old(a.dropped) + 1 && !has(record, "dropped_records"))
